@@ -538,7 +538,7 @@ package gmars
 //@ func (*reportSim).addWarrior
 //@   panics [C04][C13]
 //@   requires simInv(s) && dataWf(data, s.m)
-//@   modifies s.warriors, s.warriorCount
+//@   modifies s.warriors, s.warriors[*], s.warriorCount
 //@   ensures [C04] simInv(s) && s.warriorCount == old(s.warriorCount) + 1 && result.1 == nil && result.0 == s.warriors[old(s.warriorCount)]
 //@   ensures [C13][C14] fresh(result.0) && result.0.state == WarriorAdded && fresh(result.0.data) && fresh(arr(result.0.data.Code))
 //@   ensures [C13] forall j :: 0 <= j && j < old(s.warriorCount) ==> s.warriors[j] == old(s.warriors[j])
@@ -546,7 +546,7 @@ package gmars
 //@ func (*reportSim).AddWarrior
 //@   panics [C04][C13]
 //@   requires simInv(s) && dataWf(data, s.m)
-//@   modifies s.warriors, s.warriorCount
+//@   modifies s.warriors, s.warriors[*], s.warriorCount
 //@   ensures [C04] simInv(s) && s.warriorCount == old(s.warriorCount) + 1 && result.1 == nil
 
 //@ func (*reportSim).spawnWarrior
@@ -858,7 +858,7 @@ package gmars
 //@   ensures [C10] result.1 != nil ==> len(result.0.Code) == 0 && result.0.Start == 0
 //@   ensures [C10] result.1 == nil ==> 0 <= result.0.Start && result.0.Start < len(result.0.Code) && codeWf(result.0, coresize)
 //@   loop 1
-//@     invariant data.Start >= 0 && codeWf(data, coresize) && breader != nil && breader.left >= 0 && fresh(breader)
+//@     invariant data.Start >= 0 && codeWf(data, coresize) && breader != nil && breader.left >= 0 && fresh(breader) && fresh(arr(data.Code))
 //@     decreases [C10] breader.left
 // nothing is skipped silently: a line with fields either appends one instruction, is an 'org' directive, or ends the loop / fails
 //@     iteration [C10] len(fields) == 0 || (len(data.Code) == iter(len(data.Code)) + 1 && data.Start == iter(data.Start)) || (len(fields) == 2 && fields[0] == "org" && len(data.Code) == iter(len(data.Code)))
@@ -874,7 +874,7 @@ package gmars
 //@   ensures [C10] result.1 == nil ==> 0 <= result.0.Start && (result.0.Start < len(result.0.Code) || (result.0.Start == 0 && len(result.0.Code) == 0))
 //@   ensures [C10] result.1 == nil ==> codeWf(result.0, coresize) && codeLegal88(result.0)
 //@   loop 1
-//@     invariant codeWf(data, coresize) && codeLegal88(data) && breader != nil && breader.left >= 0 && fresh(breader)
+//@     invariant codeWf(data, coresize) && codeLegal88(data) && breader != nil && breader.left >= 0 && fresh(breader) && fresh(arr(data.Code))
 //@     invariant [C10] data.Start >= 0
 //@     decreases [C10] breader.left
 //@     iteration [C10] len(fields) == 0 || (len(data.Code) == iter(len(data.Code)) + 1 && data.Start == iter(data.Start)) || (len(fields) == 2 && fields[0] == "org" && len(data.Code) == iter(len(data.Code)))
